@@ -14,3 +14,14 @@ static inline struct KeyID verif_getKeyIDForID_abs(struct SQLiteBuildDB *self, s
   struct KeyID k; k._value = g_dep_keys[g_dec_pos - 1];
   if (nondet_bool()) { error_out->len = 3; g_errors++; }
   return k; }
+/* getKeyID as used by setRuleResult: the database id of an engine key is a ghost function of the call order
+ * (first call: the rule's own key; then one call per dependency, in order); it may fail */
+uint64_t g_dbkey_of_rule, g_dbkey_of[512]; unsigned g_getkey_calls; struct KeyID g_getkey_last;
+static inline struct DBKeyID verif_getKeyID_abs(struct SQLiteBuildDB *self, struct KeyID k, vstr *error_out) {
+  __CPROVER_assert(self->dbMutex.held, "[P:C03] the id caches are used with dbMutex held");
+  struct DBKeyID d; d.value = (g_getkey_calls == 0) ? g_dbkey_of_rule : g_dbkey_of[(g_getkey_calls - 1) % 512];
+  g_getkey_last = k; g_getkey_calls++;
+  if (nondet_bool()) { error_out->len = 3; g_errors++; }
+  return d; }
+static inline size_t verif_deps_size(const struct DependencyKeyIDs *d) { return d->items.len; }
+static inline struct KeyIDAndFlags *verif_deps_at(const struct DependencyKeyIDs *d, size_t i) { return &d->items.ptr[i]; }
